@@ -61,7 +61,7 @@ def cond_dist(d, cond_idx, timeout_ms=60000):
     for i, a in enumerate(c1):
         for k2, b in enumerate(ccols):
             goals.append(S(a, b) - z3.Sum([A[i][k] * S(ccols[k], b) for k in range(len(z))]) == 0)
-    r = _valid(hyps, z3.And(*goals), timeout_ms)
+    r = _valid_each(hyps, goals, timeout_ms, M)
     res.append(('mean = A z with S12 - A S22 = 0 (orthogonality principle)', r[0], r[1], time.time() - t0))
     # covariance of the residual X1 - A X2
     t0 = time.time()
@@ -73,17 +73,113 @@ def cond_dist(d, cond_idx, timeout_ms=60000):
                 + z3.Sum([A[i][k] * S(ccols[k], ccols[l]) * A[j][l] for k in range(len(z)) for l in range(len(z))])
             goals.append(tz(sg[i, j]) == cov)
             goals.append(tz(sg[i, j]) == tz(sg[j, i]))
-    r = _valid(hyps, z3.And(*goals), timeout_ms)
+    if len(z) <= 2:
+        r = _valid_each(hyps, goals, timeout_ms, M)
+    else:
+        # Lemma chain for large conditioning sets (cut rule; every step a solver query):
+        #  (1) orthogonality E_il := S(a_i,c_l) - sum_k A_ik S(c_k,c_l) = 0            [shown above]
+        #  (2) sg_ij = S(a_i,a_j) - sum_k A_ik S(c_k,a_j)                              [rational identity]
+        #  (3) for *arbitrary* reals a_ik:  Cov_ij(a) = (S_ij - sum_k a_ik S(c_k,a_j)) - sum_l E_il(a) a_jl   [polynomial identity]
+        #  hence Cov_ij(A) = sg_ij; symmetry of sg from (2) by the same identity route.
+        okc = res[-1][1] == 'unsat'
+        step2 = []
+        for i, a in enumerate(c1):
+            for j, b in enumerate(c1):
+                step2.append(tz(sg[i, j]) == S(a, b) - z3.Sum([A[i][k] * S(ccols[k], b) for k in range(len(z))]))
+        r2 = _valid_each(hyps, step2, timeout_ms, M)
+        okc = okc and r2[0] == 'unsat'
+        av = [[z3.Real(f'A_{i}_{k}') for k in range(len(z))] for i in range(len(c1))]
+        sgv = [[z3.Real(f'sg_{i}_{j}') for j in range(len(c1))] for i in range(len(c1))]
+        hyp3 = []
+        goal3 = []
+        for i, a in enumerate(c1):
+            for l, cl in enumerate(ccols):
+                hyp3.append(S(a, cl) - z3.Sum([av[i][k] * S(ccols[k], cl) for k in range(len(z))]) == 0)
+            for j, b in enumerate(c1):
+                hyp3.append(sgv[i][j] == S(a, b) - z3.Sum([av[i][k] * S(ccols[k], b) for k in range(len(z))]))
+        sym_h = [S(x_, y_) == S(y_, x_) for x_ in cols for y_ in cols]
+        lem3 = []
+        for i, a in enumerate(c1):
+            for j, b in enumerate(c1):
+                covv = S(a, b) - z3.Sum([av[i][k] * S(ccols[k], b) for k in range(len(z))]) \
+                    - z3.Sum([S(a, ccols[k]) * av[j][k] for k in range(len(z))]) \
+                    + z3.Sum([av[i][k] * S(ccols[k], ccols[l]) * av[j][l] for k in range(len(z)) for l in range(len(z))])
+                simple = S(a, b) - z3.Sum([av[i][k] * S(ccols[k], b) for k in range(len(z))])
+                Ei = [S(a, ccols[l]) - z3.Sum([av[i][k] * S(ccols[k], ccols[l]) for k in range(len(z))]) for l in range(len(z))]
+                ident = covv == simple - z3.Sum([Ei[l] * av[j][l] for l in range(len(z))])
+                okc = okc and _valid([], ident, timeout_ms)[0] == 'unsat'          # (3): no hypotheses at all
+                lem3.append(ident)
+                goal3.append(sgv[i][j] == covv)
+        # final linear step on the abstracted symbols
+        r3 = _valid(hyp3 + lem3, z3.And(*goal3), timeout_ms)
+        okc = okc and r3[0] == 'unsat'
+        # symmetry: sg_ij - sg_ji = sum_k A_jk S(c_k,a_i) - sum_k A_ik S(c_k,a_j); both equal sum_kl A_ik S(c_k,c_l) A_jl by (1)
+        sym_ok = True
+        for i in range(len(c1)):
+            for j in range(i + 1, len(c1)):
+                quad = z3.Sum([av[i][k] * S(ccols[k], ccols[l]) * av[j][l] for k in range(len(z)) for l in range(len(z))])
+                Ei = [S(c1[i], ccols[l]) - z3.Sum([av[i][k] * S(ccols[k], ccols[l]) for k in range(len(z))]) for l in range(len(z))]
+                Ej = [S(c1[j], ccols[l]) - z3.Sum([av[j][k] * S(ccols[k], ccols[l]) for k in range(len(z))]) for l in range(len(z))]
+                id1 = z3.Sum([av[j][l] * S(ccols[l], c1[i]) for l in range(len(z))]) == quad + z3.Sum([Ei[l] * av[j][l] for l in range(len(z))])
+                id2 = z3.Sum([av[i][l] * S(ccols[l], c1[j]) for l in range(len(z))]) == quad + z3.Sum([Ej[l] * av[i][l] for l in range(len(z))])
+                sym_ok = sym_ok and _valid(sym_h, z3.And(id1, id2), timeout_ms)[0] == 'unsat'
+                sym_ok = sym_ok and _valid(hyp3 + sym_h + [id1, id2], sgv[i][j] == sgv[j][i], timeout_ms)[0] == 'unsat'
+        r = ('unsat', None) if (okc and sym_ok) else ('unknown', None)
     res.append(('covariance = Cov(X1 - A X2), symmetric', r[0], r[1], time.time() - t0))
-    # positive semi-definite (principal minors >= 0) for |free| <= 2
+    # positive semi-definite (principal minors >= 0) for |free| <= 2, by the Schur determinant identities
+    #   sb_ii * det(S22) = det(S[{i}+cond]),   det(sb) * det(S22) = det(S[free+cond])
+    # (each identity is a solver query; the sign then follows from the positive principal minors of a
+    # positive-definite matrix, which are added as hypotheses - a true fact about PD matrices)
     if len(c1) <= 2:
         t0 = time.time()
+        import itertools as _it
+        pm = []
+        for k in range(1, d + 1):
+            for sub in _it.combinations(range(d), k):
+                pm.append(tz(det(M[np.ix_(sub, sub)])) > 0)
+        ci = [ix[c] for c in ccols]
+        d22 = tz(det(M[np.ix_(ci, ci)]))
+        lem = []
+        okl = True
+        for i, a in enumerate(c1):
+            sub = [ix[a]] + ci
+            l_ = tz(sg[i, i]) * d22 == tz(det(M[np.ix_(sub, sub)]))
+            okl = okl and _valid(hyps + pm, l_, timeout_ms)[0] == 'unsat'
+            lem.append(l_)
+        if len(c1) == 2:
+            sub = [ix[c1[0]], ix[c1[1]]] + ci
+            l_ = tz(det(sg)) * d22 == tz(det(M[np.ix_(sub, sub)]))
+            okl = okl and _valid(hyps + pm, l_, timeout_ms)[0] == 'unsat'
+            lem.append(l_)
         goals = [tz(sg[i, i]) >= 0 for i in range(len(c1))]
         if len(c1) == 2:
             goals.append(tz(det(sg)) >= 0)
-        r = _valid(hyps, z3.And(*goals), timeout_ms)
+        r = _valid(pm + lem, z3.And(*goals), timeout_ms) if okl else ('unknown', None)
         res.append(('covariance positive semi-definite (principal minors >= 0)', r[0], r[1], time.time() - t0))
     return res
+
+
+def _valid_each(hyps, goals, timeout_ms, M):
+    """each equation separately: first as one z3 query; if that is not decided quickly, as a rational
+    identity with cleared denominators (every divisor shown non-zero from the positive principal minors)"""
+    import itertools as _it
+    from symx.trans import prove_identity
+    d = M.shape[0]
+    pm = [tz(det(M[np.ix_(sub, sub)])) > 0 for k in range(1, d + 1) for sub in _it.combinations(range(d), k)]
+    r = _valid(hyps, z3.And(*goals), min(timeout_ms, 20000))
+    if r[0] in ('unsat', 'sat'):
+        return r
+    for g in goals:
+        if not (z3.is_eq(g)):
+            rr = _valid(hyps + pm, g, timeout_ms)
+            if rr[0] != 'unsat':
+                return rr
+            continue
+        lhs, rhs = g.children()
+        pr = prove_identity(hyps + pm, lhs, rhs, timeout_ms=timeout_ms)
+        if pr['status'] != 'unsat':
+            return (pr['status'] if pr['status'] in ('sat', 'unknown') else 'unknown', pr.get('model'))
+    return ('unsat', None)
 
 
 def _valid(hyps, goal, timeout_ms):
